@@ -81,7 +81,7 @@ Eval(g, S, fuel, D) ==
   THEN LET S1 == Post(S, g) IN IF S1.ok THEN R(<<S1>>, FALSE) ELSE R(<<>>, FALSE)
   ELSE
   CASE g[1] = "probe" -> R(<<S>>, FALSE)
-    [] g[1] = "show"  -> R(<<[S EXCEPT !.u.trail = Append(@, ToJson(WalkStar(Norm(g[2]), S.smap)))]>>, FALSE)
+    [] g[1] = "show"  -> R(<<[S EXCEPT !.u.trail = Append(@, ShowOf(WalkStar(Norm(g[2]), S.smap)))]>>, FALSE)
     [] g[1] = "isnum" -> IF IsNum(Norm(g[2])) THEN R(<<S>>, FALSE) ELSE R(<<>>, FALSE)
     [] g[1] = "isground" -> IF Ground(Norm(g[2])) THEN R(<<S>>, FALSE) ELSE R(<<>>, FALSE)
     [] g[1] \in {"conj", "closure"} -> EvalSeq(g[2], S, fuel, D)
